@@ -261,15 +261,21 @@ DTails == {
   <<SAssign(0, Idx(Var("x"), N(0)), "none", <<N(1)>>), SAssign(0, Idx(Var("x"), S("q")), "none", <<Lit(Bool(TRUE))>>), SMut(0, "join", Var("x"), ENone, ENone)>>
 }
 DKeySeqs == { <<a, b, c>> : a, b, c \in DKeys } \cup (IF Tier = "quick" THEN {} ELSE { <<a, b, c, d>> : a, b, c, d \in DKeys })
+(* a second array filled with the same entries in the opposite order is the same array *)
+DFillY(ks) == [i \in 1..Len(ks) |-> SAssign(0, Idx(Var("y"), ks[Len(ks) + 1 - i]), "none", <<DVal(ks[Len(ks) + 1 - i])>>)]
+DCompare(ks) == DFillY(ks) \o <<Say(Eq(Var("x"), Var("y"))), Say(Bin("ne", Var("x"), <<Var("y")>>)),
+                                SRock(0, Var("o"), <<Var("x")>>), SRock(0, Var("q"), <<Var("y")>>), Say(Eq(Var("o"), Var("q"))),
+                                SAssign(0, Idx(Var("y"), ks[1]), "none", <<S("other")>>), Say(Eq(Var("x"), Var("y")))>>
 DICTPrograms(z) == { << DFill(ks) \o t >> : ks \in { q \in DKeySeqs : \A i, j \in 1..Len(q) : i # j => q[i] # q[j] }, t \in DTails }
+                   \cup { << DFill(ks) \o DCompare(ks) >> : ks \in { q \in DKeySeqs : \A i, j \in 1..Len(q) : i # j => q[i] # q[j] } }
 
 -----------------------------------------------------------------------------
 (* ILL: every statement form applied to every value kind (C09) *)
 IllSetup == <<Put(Lit(Null), "vn"), Put(Lit(Bool(TRUE)), "vb"), Put(N(0), "vz"), Put(Lit(Fin(96)), "vf"), Put(S("ab"), "vs"), Put(S(""), "ve"),
               SRock(0, Var("va"), <<N(1), S("x")>>), SAssign(0, Idx(Var("va"), S("k")), "none", <<N(2)>>),
-              Put(Lit(NaN), "vnan"), Put(Lit(Huge), "vh"), Put(N(-1), "vneg"), Put(S("1,2"), "vc"), Put(S("~b~"), "vu"), Put(N(1), "vone"),
+              Put(Lit(NaN), "vnan"), Put(Lit(Huge), "vh"), Put(N(-1), "vneg"), Put(S("1,2"), "vc"), Put(S("~b~"), "vu"), Put(N(1), "vone"), Put(S("x~~~~~~~~~~~~~~~~~~~~~~~~~~~~~~~~~~~~~~~~"), "vl"),
               SFunc(0, "fn", <<"a">>, <<Ret(Var("a"))>>)>>
-IllVars == { "vm", "vn", "vb", "vz", "vf", "vs", "ve", "va", "vnan", "vneg", "vc", "fn", "vu", "vone" } \cup (IF Tier = "quick" THEN {} ELSE {"vh"})
+IllVars == { "vm", "vn", "vb", "vz", "vf", "vs", "ve", "va", "vnan", "vneg", "vc", "fn", "vu", "vone", "vl" } \cup (IF Tier = "quick" THEN {} ELSE {"vh"})
 IllStmts(x, p) == {
   Say(Var(x)), Say(Un("neg", Var(x))), Say(Un("not", Var(x))), Say(Idx(Var(x), Var(p))),
   SAssign(0, Idx(Var(x), Var(p)), "none", <<N(1)>>), SInc(0, Var(x), 2), SDec(0, Var(x), 1),
@@ -288,7 +294,11 @@ IllStmts(x, p) == {
   SFunc(0, x, <<"a">>, <<>>), SReturn(0, Var(x)),
   Say(Bin("lt", Var(x), <<Var(p)>>)), Say(Bin("times", Var(x), <<Var(p)>>)), Say(Bin("and", Var(x), <<Var(p), Var("nope")>>)),
   STurn(0, "up", Lit(Fin(96))), STurn(0, "up", Idx(Var(x), Var(p))), SInc(0, Pro, 1), SRock(0, Lit(Str("lit")), <<Var(p)>>),
-  SMut(0, "cut", Lit(Str("a,b")), Var(x), Var(p)), SRoll(0, Idx(Var(x), Var(p)), Pro)
+  SMut(0, "cut", Lit(Str("a,b")), Var(x), Var(p)), SRoll(0, Idx(Var(x), Var(p)), Pro),
+  \* a call where a statement wants something it can write to
+  SRock(0, Call(x, <<Var(p)>>), <<N(1), N(2)>>), SRock(0, Call(x, <<Var(p), Pro>>), <<>>), SRoll(0, Call(x, <<Var(p)>>), Var("y")),
+  SMut(0, "cut", Call(x, <<Var(p)>>), ENone, ENone), STurn(0, "up", Call(x, <<Var(p)>>)), SRock(0, Idx(Call(x, <<Var(p)>>), N(0)), <<N(1)>>),
+  SMut(0, "cast", Var(x), Idx(Call("fn", <<Var(p)>>), N(0)), ENone)
 }
 ILLPrograms(z) ==
   UNION { { << IllSetup, <<st, Say(Var(x)), Say(Var("y"))>> >> : st \in UNION { IllStmts(x, p) : p \in IllVars } } : x \in IllVars }
